@@ -81,6 +81,22 @@ PROPS = {
                    'functorial lemmas (assumed).',
         technique='symbolic execution of the real translation + exact ZX interpretation + proportionality identities '
                   'discharged by z3'),
+    'C12': dict(
+        title='Mixed evaluation agrees with pure evaluation and the Born rule',
+        level='proof',
+        vc=[], sym=['C12'], rtc='C12',
+        level_text='Proof (per generator, for all parameter values and, by linearity, all input states): the CQ map that the '
+                   'real cqmap.Functor assigns to every box kind of the statement (pure gates incl. daggered and controlled, '
+                   'kets/bras, Measure and Encode in all four variants, Discard, MixedState on bits and qubits, pure and '
+                   'mixed scalars, classical gates and their daggers, Bits/Copy/Match, the three kinds of swaps) equals the '
+                   'completely positive map written from the textbook definitions in rtc/cqsim.py: entrywise polynomial '
+                   'identities discharged by z3; CQMap.pure(u) = conj(u) (x) u for a generic 2x2 array; symbolic sample '
+                   'circuits through the real CQMap.then/tensor. Whole circuits, get_counts / measure and trace '
+                   'preservation: bounded stand-in (all circuits of depth <= 2/3 over 20 box kinds on <= 3 wires).',
+        level_note='Trusted: sympy normalisation, z3, rtc/cqsim.py (independent simulator, 200 lines), spec_quantum.py; '
+                   'L-net, L-dbl. Dimensions other than 2 are not covered.',
+        technique='symbolic execution of the real CQ functor per generator + polynomial identities (z3); bounded '
+                  'comparison of whole circuits with an independent superoperator simulator'),
     'C14': dict(
         title='Substituting parameters commutes with evaluation',
         level='proof',
